@@ -1,19 +1,140 @@
-"""Property-specific steps that run outside the vcheck binary (fuzz-corpus
-replays, sanitizer drivers, known-finding probes). Each hook returns a dict;
-all keys are optional."""
+"""Property-specific steps that run outside the generic shard loop: coverage
+completeness checks (C04/C05), fuzz-corpus replays and sanitizer drivers
+(C02/C03/C06/C07/C13/C14). Each hook returns a dict; all keys are optional:
+coverage (merged into evidence.coverage), violations, known, assumptions,
+engine_error, nshards, workers, extra_args."""
+import json
+import os
+import subprocess
+import sys
+
+HERE = os.path.dirname(os.path.abspath(__file__))
+ROOT = os.path.dirname(HERE)
+WORK = os.path.join(ROOT, "work")
+EVID = os.path.join(ROOT, "evidence")
+
+
+def _verif():
+    import verif  # the driver module (verif.py is importable: ROOT is on sys.path when run as a script)
+    return verif
+
+
+sys.path.insert(0, ROOT)
 
 
 def setup():
-    return True
+    ok = True
+    try:
+        import fuzzers
+        ok = fuzzers.setup() and ok
+    except ImportError:
+        pass
+    return ok
 
 
 def before(prop, tier, seed):
     return {}
 
 
+def _shard_classes(prop, tier):
+    """class histograms per flavour from the shard outputs of the run that just finished"""
+    out = {}
+    d = os.path.join(WORK, prop)
+    if not os.path.isdir(d):
+        return out
+    for name in os.listdir(d):
+        if not name.startswith(tier + "-") or not name.endswith(".json"):
+            continue
+        fl = name[len(tier) + 1:].rsplit("-", 1)[0]
+        try:
+            doc = json.load(open(os.path.join(d, name)))
+        except Exception:
+            continue
+        for r in doc.get("results", []):
+            h = out.setdefault(fl, {})
+            for k, v in r.get("classes", {}).items():
+                h[k] = h.get(k, 0) + v
+    return out
+
+
+EXPECTED_LEVELS = {
+    "asm": ["Portable", "SSE2", "SSE41", "AVX2", "AVX512"],
+    "intr": ["Portable", "SSE2", "SSE41", "AVX2", "AVX512"],
+    "plain": ["Portable", "SSE2", "SSE41", "AVX2", "AVX512"],
+    "nostd": ["Portable", "SSE2", "SSE41", "AVX2", "AVX512"],
+    "pure": ["Portable", "SSE2", "SSE41", "AVX2"],
+    "stock": ["AVX512"],
+    "stock_no_avx512": ["AVX2"],
+    "stock_no_avx2": ["SSE41"],
+    "stock_no_sse41": ["SSE2"],
+    "stock_no_sse2": ["Portable"],
+}
+
+CPU_FLAG = {"SSE2": "sse2", "SSE41": "sse4_1", "AVX2": "avx2", "AVX512": "avx512vl"}
+
+
+def _cpu_has(level):
+    if level == "Portable":
+        return True
+    try:
+        flags = open("/proc/cpuinfo").read()
+    except Exception:
+        return True
+    return (" " + CPU_FLAG[level] + " ") in flags or (" " + CPU_FLAG[level] + "\n") in flags
+
+
 def after(prop, tier, seed):
-    return {}
+    res = {}
+    v = _verif()
+    if prop == "C04":
+        hist = _shard_classes(prop, tier)
+        pairs = []
+        missing = []
+        for fl in v.PROP_FLAVOURS[prop][tier]:
+            for lvl in EXPECTED_LEVELS.get(fl, []):
+                if not _cpu_has(lvl):
+                    continue
+                tag = "cfg=%s:%s" % (fl if not fl.startswith("stock") else fl, lvl)
+                n = hist.get(fl, {}).get(tag, 0)
+                if n > 0:
+                    pairs.append({"build": fl, "level": lvl, "cases": n})
+                else:
+                    missing.append("%s:%s" % (fl, lvl))
+        res["coverage"] = {"configurations_executed": pairs}
+        if missing:
+            res["engine_error"] = "expected (build, level) pairs did not execute: %s" % ", ".join(missing)
+    if prop in ("C05", "C07"):
+        ks = {}
+        for fl in v.PROP_FLAVOURS[prop][tier]:
+            try:
+                p = subprocess.run([v.flavour_bin(fl), "kernels"], stdout=subprocess.PIPE, text=True, timeout=60)
+                ks[fl] = [l for l in p.stdout.splitlines() if l.strip()]
+            except Exception as e:  # noqa
+                ks[fl] = ["<could not list: %s>" % e]
+        res["coverage"] = {"kernels": ks}
+        need = ["asm-unix:", "asm-windows-gnu:", "c-intrinsics:", "c:portable", "Platform::"]
+        have = " ".join(ks.get("asm", []))
+        lacking = [n for n in need if n not in have]
+        if lacking:
+            res["engine_error"] = "kernel families missing from the asm build: %s" % lacking
+    try:
+        import fuzzers
+        fz = fuzzers.after(prop, tier, seed)
+        for k, val in fz.items():
+            if k == "coverage":
+                res.setdefault("coverage", {}).update(val)
+            elif k in ("violations", "known", "assumptions"):
+                res.setdefault(k, []).extend(val)
+            elif k == "engine_error" and val:
+                res["engine_error"] = (res.get("engine_error", "") + "; " + val).strip("; ")
+    except ImportError:
+        pass
+    return res
 
 
 def replay(prop, path):
-    return None
+    try:
+        import fuzzers
+        return fuzzers.replay(prop, path)
+    except ImportError:
+        return None
